@@ -48,6 +48,10 @@ func zz34Digest(algo string, data []byte, code uint64, size, length int) (mh.Mul
 	if length < 0 {
 		length = size
 	}
+	if verifrt.Param("MHL_ALL", 0) == 0 {
+		// every truncation length is a separate path: sample both ends of the range unless MHL_ALL
+		verifrt.Assume(length <= 2 || length >= size-1)
+	}
 	d := verifrt.HashUF(algo, data, size)
 	return mh.Encode(d[:length], code)
 }
@@ -443,7 +447,15 @@ var zz34CidLens = []int{0, 1, 2, 3, 4, 5, 6, 34, 36}
 
 func zz34CidBytes(name string) []byte {
 	n := zz34CidLens[verifrt.NondetRange(name+"_len", 0, verifrt.Param("CIDSHAPES", len(zz34CidLens))-1)]
-	return verifrt.NondetBytes(name, n)
+	b := verifrt.NondetBytes(name, n)
+	// long shapes: the header bytes are unconstrained, the digest bytes are 7-bit (a varint read off the end
+	// of the header stops at the first digest byte; keeps the number of varint-chain paths bounded)
+	if n >= 34 {
+		for k := 4; k < n; k++ {
+			verifrt.Assume(b[k] < 0x80)
+		}
+	}
+	return b
 }
 
 type zz34Blk struct {
@@ -451,8 +463,12 @@ type zz34Blk struct {
 	data []byte
 }
 
-// HarnessC34ParseCids: the CID bytes of wantlist entries and block presences are symbolic; blocks are well-formed.
-func HarnessC34ParseCids() { zz34Parse(0) }
+// HarnessC34ParseEntryCids: the CID bytes of the first wantlist entry are symbolic (a second entry, blocks and
+// presences are well-formed).
+func HarnessC34ParseEntryCids() { zz34Parse(0) }
+
+// HarnessC34ParsePresenceCids: the CID bytes of a block presence are symbolic (entries and blocks well-formed).
+func HarnessC34ParsePresenceCids() { zz34Parse(2) }
 
 // HarnessC34ParseBlocks: the prefix bytes and data of the first payload block and the deprecated blocks field are
 // symbolic; entries are well-formed; a presence may name the very CID the first block hashes to.
@@ -464,13 +480,16 @@ func zz34Parse(mode int) {
 	var entryBytes, presBytes [][]byte
 	if verifrt.NondetRange("wl", 0, 1) == 1 {
 		wl := &pb.Message_Wantlist{Full: verifrt.NondetBool("full")}
-		ne := verifrt.NondetRange("ne", 0, verifrt.Param("NE", 1))
+		ne := verifrt.Param("NE", 1)
+		if mode == 0 {
+			ne = verifrt.NondetRange("ne", 0, ne)
+		}
 		for i := 0; i < ne; i++ {
 			var b []byte
-			if mode == 0 {
+			if mode == 0 && i == 0 {
 				b = zz34CidBytes("e_cid")
 			} else {
-				b = pool[verifrt.NondetRange("e_cid_pool", 0, 1)].Bytes()
+				b = pool[i%2].Bytes()
 			}
 			entryBytes = append(entryBytes, b)
 			wl.Entries = append(wl.Entries, &pb.Message_Wantlist_Entry{
@@ -488,7 +507,7 @@ func zz34Parse(mode int) {
 		nold = verifrt.NondetRange("nold", 0, verifrt.Param("NOLD", 1))
 	}
 	for i := 0; i < nold; i++ {
-		pbm.Blocks = append(pbm.Blocks, verifrt.NondetBytes("old_data", verifrt.NondetRange("old_len", 0, 2)))
+		pbm.Blocks = append(pbm.Blocks, verifrt.NondetBytes("old_data", verifrt.NondetRange("old_len", 0, 1)))
 	}
 	npay := verifrt.NondetRange("npay", 0, verifrt.Param("NB", 1))
 	for i := 0; i < npay; i++ {
@@ -504,7 +523,15 @@ func zz34Parse(mode int) {
 				prefix = cid.Prefix{Version: 1, Codec: cid.Raw, MhType: mh.SHA2_256, MhLength: 32}.Bytes()
 			}
 		}
-		blk := &pb.Message_Block{Prefix: prefix, Data: verifrt.NondetBytes("data", verifrt.NondetRange("data_len", 0, 2))}
+		dlen := 1
+		if mode == 1 {
+			if verifrt.Param("DLEN1", 1) == 0 {
+				dlen = 2 * verifrt.NondetRange("data_len", 0, 1) // quick: data of 0 or 2 bytes
+			} else {
+				dlen = verifrt.NondetRange("data_len", 0, 2)
+			}
+		}
+		blk := &pb.Message_Block{Prefix: prefix, Data: verifrt.NondetBytes("data", dlen)}
 		if len(prefix) == 0 && len(blk.Data) == 0 && verifrt.NondetRange("nil_block", 0, 1) == 1 {
 			blk = nil // a nil element (getters are nil-safe)
 		}
@@ -513,7 +540,7 @@ func zz34Parse(mode int) {
 	npres := verifrt.NondetRange("npres", 0, verifrt.Param("NP", 1))
 	for i := 0; i < npres; i++ {
 		var b []byte
-		if mode == 0 {
+		if mode == 2 {
 			b = zz34CidBytes("p_cid")
 		} else {
 			b = pool[0].Bytes()
